@@ -1,7 +1,7 @@
 (* C20 — Reported progress is a proper weighted fraction.  Property theorems only. *)
 From Coq Require Import ZArith List Bool Reals Lia.
 Import ListNotations.
-Require Import V.Weights.Model V.Weights.Proofs V.Weights.Malformed V.Weights.FloatTie.
+Require Import V.Weights.Model V.Weights.Proofs V.Weights.Malformed V.Weights.Stages V.Weights.FloatTie.
 Require Import V.Weights.RSum V.Weights.FloatModel V.Weights.FloatSum.
 Open Scope Z_scope.
 
@@ -121,6 +121,20 @@ Theorem C20_used_progress : forall (c : Z) (ws : list wt) (D : Z) (prog : list Z
 Proof. exact used_progress. Qed.
 Print Assumptions C20_used_progress.
 
+(* Which stages the report counts (Controller.get_stages_finished / get_stages_in_transit): for ANY set of
+   nodes - also after nodes were added to stages that had finished (iterations of a DoWhile) - no stage is
+   both finished and in transit, and every known stage is in exactly one of the two lists: each stage
+   weight enters the sum of CheckStatus at most once, so C20_progress bounds the report by one. *)
+Theorem C20_stage_lists : forall (stages : list Z) (nodes : list (Z * bool)) (s : Z),
+  (In s (stages_finished stages nodes) -> ~ In s (stages_in_transit nodes)) /\
+  (In s stages ->
+   (In s (stages_finished stages nodes) /\ ~ In s (stages_in_transit nodes)) \/
+   (~ In s (stages_finished stages nodes) /\ In s (stages_in_transit nodes))).
+Proof.
+  intros stages nodes s. split; [exact (finished_not_in_transit stages nodes s)|exact (known_stage_counted_once stages nodes s)].
+Qed.
+Print Assumptions C20_stage_lists.
+
 (* Tie to IEEE-754 doubles (bounded sweeps, bounds in the statement). *)
 Theorem C20_float_tie :
   (forall k, 0 <= k <= 1000 -> tie_k k = true) /\
@@ -196,5 +210,9 @@ Example C20_nonvacuous :
   used 10 [WNan; WNum 4000; WNum 6000] = Some [9990; 9990; 10020] /\
   used 10 [WBad; WNum 10000] = None /\
   mon_used 10 [WMissing; WNum 5000] = [10000; 10000] /\
-  total (mon_used 10 [WText None; WNum 4000; WNum 6000]) [8; 8; 8] = 8 * 30000.
+  total (mon_used 10 [WText None; WNum 4000; WNum 6000]) [8; 8; 8] = 8 * 30000 /\
+  (* stage 2 had finished, then an iteration of a DoWhile added an active node to it *)
+  stages_finished [0; 1; 2; 3] [(0, false); (1, false); (2, false); (3, true)] = [0; 1; 2] /\
+  stages_finished [0; 1; 2; 3] [(0, false); (1, false); (2, false); (3, false); (1, true); (2, true); (3, true)] = [0] /\
+  stages_in_transit [(0, false); (1, false); (2, false); (3, false); (1, true); (2, true); (3, true)] = [1; 2; 3].
 Proof. repeat split; reflexivity. Qed.
